@@ -99,12 +99,35 @@ func (c *gctx) addFunc(in, out []Field, inForm, outForm int) int {
 		return false
 	}
 	// NewValueSet needs distinct names (it builds a struct with one field per name)
-	if c.built && c.r.chance(35) && (len(in) > 0 || len(out) > 0) && !dupName(in) && !dupName(out) {
+	if c.built && c.r.chance(35) && (len(in) > 0 || len(out) > 0) && !dupName(in) && !dupName(out) && addressable(in) && addressable(out) {
 		// a function assembled with BuildFunc: struct in, struct out, error
 		d.Built, d.InForm, d.OutForm, d.Err = true, FStruct, FStruct, true
 	}
 	c.sc.Funcs = append(c.sc.Funcs, d)
 	return len(c.sc.Funcs) - 1
+}
+
+// every type-only value of a set must have an accessor: Typed(t) when it is the only
+// type-only value of its type, else TypedSubtype(t, st) when no other value shares both
+func addressable(fs []Field) bool {
+	for _, f := range fs {
+		if f.Name != "" {
+			continue
+		}
+		sameTy, sameBoth := 0, 0
+		for _, g := range fs {
+			if g.Name == "" && g.Ty == f.Ty {
+				sameTy++
+			}
+			if g.Ty == f.Ty && g.Sub == f.Sub {
+				sameBoth++
+			}
+		}
+		if sameTy > 1 && sameBoth > 1 {
+			return false
+		}
+	}
+	return true
 }
 
 func posOK(fs []Field) bool {
@@ -204,6 +227,9 @@ func (c *gctx) derive(f Field, depth int, convs *[]int) []Opt {
 		case 2:
 			if f.Name != "" {
 				g.Name = ""
+				if c.r.chance(40) {
+					g.Sub = "" // a named parameter WITH a subtype also takes an unlabelled typed value of its type
+				}
 			}
 		}
 		return []Opt{c.exactOpt(g)}
@@ -373,15 +399,42 @@ func genCallScenario(c *gctx, class int) {
 	if r.chance(15) && posOK(tin) && len(tin) > 0 {
 		tin = append(tin, tin[0]) // repeated positional type
 	}
+	hopelessPair := -1
+	if c.repSub && class == 0 && r.chance(25) {
+		// two type-only parameters of one type that differ only by subtype, BOTH hopeless
+		T := c.cty()
+		free := true
+		for _, f := range tin {
+			if f.Name == "" && f.Ty == T {
+				free = false
+			}
+		}
+		if free {
+			hopelessPair = len(tin)
+			tin = append(tin, Field{Ty: T, Sub: "s"}, Field{Ty: T, Sub: "t"})
+		}
+	}
 	tout := c.fields(FStruct, r.intn(3))
+	sameSet := c.built && hopelessPair < 0 && len(tin) > 0 && addressable(tin) && r.chance(10)
+	if sameSet {
+		tout = tin
+	}
 	ti := c.addFunc(tin, tout, c.formFor(tin), c.formFor(tout))
 	c.sc.Funcs[ti].Once = false
 	if c.sc.Funcs[ti].OutForm == FPtr {
 		c.sc.Funcs[ti].OutForm = FStruct
 	}
+	if sameSet {
+		// BuildFunc(set, set, cb): one value set object is input and output
+		d := c.sc.Funcs[ti]
+		d.Built, d.InForm, d.OutForm, d.Err, d.SameSet = true, FStruct, FStruct, true, true
+	}
 	var convs []int
 	var opts []Opt
-	for _, f := range tin {
+	for fi, f := range tin {
+		if hopelessPair >= 0 && (fi == hopelessPair || fi == hopelessPair+1) {
+			continue
+		}
 		switch {
 		case class == 1: // exact matches for everything (C03)
 			o := c.exactOpt(f)
@@ -408,6 +461,14 @@ func genCallScenario(c *gctx, class int) {
 				switch {
 				case f.Ty == 13:
 					at = 9
+				case f.Ty == 16:
+					at = 17 // time.Duration for a parameter of the local type Duration
+				case f.Ty == 17:
+					at = 16
+				case f.Ty == 15:
+					at = 7 // an unnamed []int for a parameter of the named slice type
+				case f.Ty == 7 && r.chance(50):
+					at = 15
 				case f.Ty == 7 || f.Ty == 8 || f.Ty == 9 || f.Ty == 14:
 					at = []int{7, 8, 9, 13}[r.intn(4)]
 				case f.Ty == 10 || f.Ty == 11:
@@ -442,6 +503,17 @@ func genCallScenario(c *gctx, class int) {
 		d := c.sc.Funcs[convs[r.intn(len(convs))]]
 		if len(d.In) == 1 && len(d.Out) >= 1 {
 			convs = append(convs, c.addFunc([]Field{d.Out[0]}, []Field{d.In[0]}, c.formFor([]Field{d.Out[0]}), c.formFor([]Field{d.In[0]})))
+		}
+	}
+	if r.chance(10) {
+		// the target itself (or a function of exactly its Go type) is also registered as a converter
+		if r.chance(50) {
+			convs = append(convs, ti)
+		} else {
+			d := c.sc.Funcs[ti]
+			fi := c.addFunc(d.In, d.Out, d.InForm, d.OutForm)
+			c.sc.Funcs[fi].Err, c.sc.Funcs[fi].Once, c.sc.Funcs[fi].Built = d.Err, false, false
+			convs = append(convs, fi)
 		}
 	}
 	if r.chance(12) && len(convs) > 0 {
@@ -559,6 +631,18 @@ func genCallScenario(c *gctx, class int) {
 			return
 		}
 	}
+	if tgt := c.sc.Funcs[ti]; class == 1 && len(defaults) == 0 && tgt.InForm == FStruct && len(tin) > 0 && !tgt.Built && hopelessPair < 0 && addressable(tin) && r.chance(20) {
+		// a wrapper assembled with BuildFunc from the target's OWN input set is called between
+		// two calls of the target, each time with fresh exact values
+		w := &FnDecl{ID: c.nextFid, InForm: FStruct, In: tin, OutForm: FStruct, Err: true, Built: true, ShareIn: ti + 1}
+		c.nextFid++
+		c.sc.Funcs = append(c.sc.Funcs, w)
+		wi := len(c.sc.Funcs) - 1
+		c.sc.Ops = append(c.sc.Ops, Op{Kind: "call", Target: ti, Opts: opts})
+		c.sc.Ops = append(c.sc.Ops, Op{Kind: "call", Target: wi, Opts: c.revalue(opts)})
+		c.sc.Ops = append(c.sc.Ops, Op{Kind: "call", Target: ti, Opts: c.revalue(opts)})
+		return
+	}
 	for i := 0; i < nops; i++ {
 		o := opts
 		if i > 0 && r.chance(50) {
@@ -601,7 +685,22 @@ func genGenScenario(c *gctx) {
 		if cc, ok := carrier[src.Ty]; ok {
 			src.Ty = cc
 		}
-		opts = append(opts, c.exactOpt(src))
+		if r.chance(35) {
+			// the generator fires on the OUTPUT of an ordinary converter, not on a direct input
+			pre := c.field(FStruct)
+			if cc, ok := carrier[pre.Ty]; ok {
+				pre.Ty = cc
+			}
+			if !(pre.Name == src.Name && pre.Ty == src.Ty && pre.Sub == src.Sub) {
+				opts = append(opts, c.exactOpt(pre))
+				pc := c.addFunc([]Field{pre}, []Field{src}, c.formFor([]Field{pre}), c.formFor([]Field{src}))
+				opts = append(opts, Opt{Kind: "conv", Fns: []int{pc}})
+			} else {
+				opts = append(opts, c.exactOpt(src))
+			}
+		} else {
+			opts = append(opts, c.exactOpt(src))
+		}
 		fi := c.addFunc([]Field{src}, []Field{f}, c.formFor([]Field{src}), c.formFor([]Field{f}))
 		k := vkeyT{Kind: 4, Ty: src.Ty, Sub: src.Sub}
 		if src.Name != "" {
@@ -614,7 +713,17 @@ func genGenScenario(c *gctx) {
 		gd.Rows = append(gd.Rows, row)
 	}
 	c.sc.Gens = append(c.sc.Gens, gd)
-	opts = append(opts, Opt{Kind: "gen", Gens: []int{0}})
+	switch r.intn(3) {
+	case 0:
+		opts = append(opts, Opt{Kind: "gen", Gens: []int{0}})
+	case 1:
+		// a generator that declines every value is asked first: the next one is still asked
+		c.sc.Gens = append(c.sc.Gens, &GenDecl{ID: 2})
+		opts = append(opts, Opt{Kind: "gen", Gens: []int{1, 0}})
+	default:
+		c.sc.Gens = append(c.sc.Gens, &GenDecl{ID: 2})
+		opts = append(opts, Opt{Kind: "gen", Gens: []int{1}}, Opt{Kind: "gen", Gens: []int{0}})
+	}
 	shuffleOpts(r, opts)
 	c.sc.Ops = append(c.sc.Ops, Op{Kind: "call", Target: ti, Opts: opts})
 }
@@ -770,10 +879,22 @@ func genRedefineScenario(c *gctx, strict bool) {
 	}
 	tin := fix(c.fields(FStruct, 1+r.intn(3)))
 	tout := c.fields(FStruct, r.intn(3))
+	if !strict && r.chance(12) {
+		// an ordinary result of the interface type error (a struct field, not the final error)
+		tout = append(tout, Field{Name: "e", Ty: 12})
+	}
+	posErr := !strict && r.chance(8)
+	if posErr {
+		// func(...) (error, T, error): an ordinary error result that is not the final one
+		tout = []Field{{Ty: 12}, {Ty: c.cty()}}
+	}
 	ti := c.addFunc(tin, tout, c.formFor(tin), c.formFor(tout))
 	c.sc.Funcs[ti].Once = false
 	if c.sc.Funcs[ti].OutForm == FPtr {
 		c.sc.Funcs[ti].OutForm = FStruct
+	}
+	if posErr {
+		c.sc.Funcs[ti].OutForm, c.sc.Funcs[ti].Err, c.sc.Funcs[ti].Built = FPos, true, false
 	}
 	var convs []int
 	var opts []Opt
@@ -870,6 +991,16 @@ func genRedefineScenario(c *gctx, strict bool) {
 	case r.chance(15):
 		// everything is a default of the function; Redefine() and Call() get no options
 		defaults, opts = opts, nil
+	case r.chance(10):
+		// a restrictive default filter REMOVED by FilterInput(nil) given to Redefine/Call
+		defaults = []Opt{{Kind: "filterin", Flt: &Flt{Kind: 1, Subs: []Flt{{Kind: 0, Ty: c.cty()}}}}}
+		var kept []Opt
+		for _, o := range opts {
+			if o.Kind != "filterin" {
+				kept = append(kept, o)
+			}
+		}
+		opts = append(kept, Opt{Kind: "filterin", Flt: nil})
 	case r.chance(20) && len(opts) > 0:
 		// defaults that CONFLICT with the options given to Redefine/Call: the latter win
 		for _, o := range opts {
@@ -935,6 +1066,7 @@ func genOnceScenario(c *gctx) {
 		}
 	}
 	_ = anyOnce
+	nilLater := r.chance(15)
 	// once functions must be shared objects: use ConverterFunc for all
 	for i := range base.Opts {
 		if base.Opts[i].Kind == "conv" {
@@ -992,6 +1124,17 @@ func genOnceScenario(c *gctx) {
 				o.Opts = append(append([]Opt(nil), o.Opts[:k]...), o.Opts[k+1:]...)
 			}
 			c.sc.Ops = append(c.sc.Ops, o)
+		}
+	}
+	if nilLater && len(c.sc.Ops) > 1 {
+		// a LATER call is given a nil option: an error result, whatever was memoized before
+		last := &c.sc.Ops[len(c.sc.Ops)-1]
+		if last.Kind == "call" {
+			o := append(append([]Opt(nil), last.Opts...), Opt{Kind: "nil"})
+			if r.chance(50) {
+				o = append([]Opt{{Kind: "nil"}}, last.Opts...)
+			}
+			last.Opts = o
 		}
 	}
 }
@@ -1152,6 +1295,29 @@ func genNameSubFamily(c *gctx) {
 	U := c.cty()
 	for U == T {
 		U = c.cty()
+	}
+	if r.chance(20) {
+		// a negative cycle in the re-weighted graph: republish takes the named value n/T and
+		// returns the same name and type under a subtype; the target needs n/T, which another
+		// converter produces from m/U:   m U -> [make] -> n T -> [republish] -> n T/x -> (n T)
+		m := nameAlphabet[(1+indexOf(nameAlphabet, n))%len(nameAlphabet)]
+		ti := c.addFunc([]Field{{Name: n, Ty: T}}, c.fields(FStruct, r.intn(2)), FStruct, FStruct)
+		mk := c.addFunc([]Field{{Name: m, Ty: U}}, []Field{{Name: n, Ty: T}}, FStruct, FStruct)
+		rp := c.addFunc([]Field{{Name: n, Ty: T}}, []Field{{Name: n, Ty: T, Sub: "x"}}, FStruct, FStruct)
+		for _, fi := range []int{ti, mk, rp} {
+			c.sc.Funcs[fi].Once, c.sc.Funcs[fi].Err = false, false
+		}
+		opts := []Opt{{Kind: "named", Name: m, Vals: []*Val{c.val(U)}}}
+		convs := []int{mk, rp}
+		if r.chance(50) {
+			convs = []int{rp, mk}
+		}
+		opts = append(opts, c.convOpts(convs)...)
+		shuffleOpts(r, opts)
+		for i := 0; i < 6; i++ {
+			c.sc.Ops = append(c.sc.Ops, Op{Kind: "call", Target: ti, Opts: opts})
+		}
+		return
 	}
 	tin := []Field{{Name: n, Ty: T}, {Ty: U}}
 	if r.chance(40) {
@@ -1460,7 +1626,7 @@ func init() {
 		}
 	}))
 	register(resolverStream("exact", func(c *gctx) { genCallScenario(c, 1) }))
-	register(resolverStream("built", func(c *gctx) { c.built = true; genCallScenario(c, 0) }))
+	register(resolverStream("built", func(c *gctx) { c.built = true; c.repSub = c.r.chance(30); genCallScenario(c, 0) }))
 	register(resolverStream("malformed", func(c *gctx) { genCallScenario(c, 2) }))
 	register(resolverStream("convert", genConvertScenario))
 	register(resolverStream("redefine", func(c *gctx) { genRedefineScenario(c, false) }))
